@@ -215,6 +215,7 @@ func main() {
 	// First use of the package in this process, before anything else touched it: the binary
 	// class below its smallest prefix, then the decimal class (order matters for lazily built state).
 	scaleCase([]float64{0.25}, benchunit.Binary, "firstuse")
+	scaleCase([]float64{float64(float32(0.1)), float64(float32(math.Pi)), 1234.5677490234375, float64(float32(1e-7))}, benchunit.Decimal, "single32")
 	scaleCase([]float64{2048, 0.0625}, benchunit.Binary, "firstuse")
 	scaleCase([]float64{3e-12, 5e-10}, benchunit.Decimal, "firstuse")
 	r := hx.NewRand(10)
@@ -258,6 +259,10 @@ func main() {
 				vals[j] = hx.Pick(r, specials)
 			case 1:
 				vals[j] = randFloat(r)
+			case 2:
+				// values that carry no more than single precision (a metric computed in float32): the
+				// shortest float64 text of such a value is usually much longer than its float32 text
+				vals[j] = float64(float32(math.Pow(10, r.Float()*20-10) * float64(1-2*r.Intn(2))))
 			default:
 				// log-uniform magnitude 1e-20 .. 1e20
 				vals[j] = math.Pow(10, r.Float()*40-20) * float64(1-2*r.Intn(2))
